@@ -620,7 +620,9 @@ func (e *Env) evalCall(x *SExpr) Value {
 		} else {
 			kt, kvv = Int(int64(e.ex.tagByName("wire.ctxKey"))), kv.L[0]
 		}
-		return Value{T: anyType, L: []*Term{UF("ctxval.tag", SInt, c.L[1], kt, kvv), UF("ctxval.val", SInt, c.L[1], kt, kvv)}}
+		cvT, cvV := UF("ctxval.tag", SInt, c.L[1], kt, kvv), UF("ctxval.val", SInt, c.L[1], kt, kvv)
+		e.live.assume(And(Le(Int(0), cvT), Implies(Eq(cvT, Int(0)), Eq(cvV, Int(0)))))
+		return Value{T: anyType, L: []*Term{cvT, cvV}}
 	case "box": // the interface value holding x
 		need(1)
 		v := arg(0)
